@@ -119,7 +119,11 @@ def lru_assembly(ctx, rr):
                         rr.fail(ctx.finding('R-LRU-ASSEMBLY', u, b, '%s concatenates stems in the wrong order (`%s`): the LRU read back is not the LRU stored' % (u.qual, ast.unparse(b))))
             elif isinstance(b, ast.AugAssign) and isinstance(b.op, ast.Add) and ast.unparse(b.value).endswith('.stem()'):
                 n += 1
-                rr.ob(ctx.where(u, b), '%s extends the LRU by the stem of the node it leaves downwards' % u.qual, ok=not u.name.startswith('windup'))
+                okx = not u.name.startswith('windup')
+                rr.ob(ctx.where(u, b), '%s extends the LRU by the stem of the node it leaves downwards' % u.qual, ok=okx)
+                if not okx:
+                    rr.fail(ctx.finding('R-LRU-ASSEMBLY', u, b, '%s appends the stem of a parent to the LRU built so far (`%s`): the bottom-up walk must put the parent stem in front, the LRU '
+                                        'read back is not the LRU stored' % (u.qual, ast.unparse(b))))
     rr.require(n, 5, 'stem concatenations')
     # windup walks the parents of the node it was given and starts from that node's own stem
     w = P.method('LRUTrie', 'windup_lru')
@@ -525,7 +529,8 @@ def paginate(ctx, rr):
     # look-ahead of the page pagination: k = page_count + 1 and the cut happens at n >= k
     u = P.method('Traph', 'paginate_webentity_pages')
     ks = [a for a in P.own(u, ast.Assign) if isinstance(a.value, ast.IfExp) and 'page_count' in ast.unparse(a.value)]
-    ok = len(ks) == 1 and ast.unparse(ks[0].value.body).replace(' ', '') in ('page_count+1', '1+page_count')
+    ok = len(ks) == 1 and (ast.unparse(ks[0].value.body).replace(' ', '') in ('page_count+1', '1+page_count')
+                           or ast.unparse(ks[0].value.orelse).replace(' ', '') in ('page_count+1', '1+page_count'))
     if not ks:
         # statement form: if page_count is not None: k = page_count + 1 else: k = None
         ks = [a for a in P.own(u, ast.Assign) if isinstance(a.value, ast.BinOp) and 'page_count' in ast.unparse(a.value)]
@@ -552,6 +557,16 @@ def storage_sem(ctx, rr):
     """both writable back-ends implement the same block semantics: a block address selects bytes [block, block+size); no address
     means append; the returned address is where the block landed"""
     P = ctx.P
+    # the storages work on a file they were given: none of them closes it (Traph.close() does, once, for both stores); the mapped
+    # reader in particular shares the Traph's own read/write handle
+    from ..effects import STORAGES as _ST
+    for cls_ in _ST:
+        for name_, u_ in P.require_class(cls_).items():
+            for c_ in P.own(u_, ast.Call):
+                if isinstance(c_.func, ast.Attribute) and c_.func.attr == 'close' and ast.unparse(c_.func.value) == 'self.file':
+                    rr.ob(ctx.where(u_, c_), '%s.%s leaves the shared file handle open' % (cls_, name_), ok=False)
+                    rr.fail(ctx.finding('R-STORAGE-SEM', u_, c_, '%s.%s closes the file it was given: that is the Traph\'s own handle, every later request on the on-disk index fails with '
+                                        '"seek of closed file" while the in-memory index keeps answering' % (cls_, name_)))
     ms = P.require_class('MemoryStorage')
     r = P.method('MemoryStorage', 'read')
     w = P.method('MemoryStorage', 'write')
